@@ -54,6 +54,22 @@ MIMETYPES.add_type("text/vcard", ".vcf")  # type: ignore
 DEFAULT_MIME_TYPE = "application/octet-stream"
 
 
+def guess_mime_type(name: str) -> str:
+    """Guess the MIME type for the name of an item in a store.
+
+    Item names are file names, not URLs: mimetypes.guess_type() would take
+    the text in front of a colon for a URL scheme and miss the extension.
+    """
+    guess_file_type = getattr(MIMETYPES, "guess_file_type", None)
+    if guess_file_type is not None:
+        (mime_type, _) = guess_file_type(name)
+    else:
+        (mime_type, _) = MIMETYPES.guess_type("./" + name)
+    if mime_type is None:
+        return DEFAULT_MIME_TYPE
+    return mime_type
+
+
 class InvalidCTag(Exception):
     """The request CTag can not be retrieved."""
 
@@ -203,11 +219,8 @@ def open_by_extension(
       name: Name of file to open
     Returns: File instance
     """
-    (mime_type, _) = MIMETYPES.guess_type(name)
-    if mime_type is None:
-        mime_type = DEFAULT_MIME_TYPE
     return open_by_content_type(
-        content, mime_type, extra_file_handlers=extra_file_handlers
+        content, guess_mime_type(name), extra_file_handlers=extra_file_handlers
     )
 
 
